@@ -144,6 +144,39 @@ def models_for(ctx):
         return ms.Enum(1, {"Err": ms.Struct({0: ms.Opaque("error")})})
 
     def m_args_eq(ex, path, a):
+        if os.environ.get("C19_PROBE"):
+            def show(v, d=0):
+                if isinstance(v, ms.Ref):
+                    return "Ref(%s,%s)->" % (v.local, v.proj) + show(ex.load(path, v), d + 1)
+                if isinstance(v, ms.Struct):
+                    return "Struct{" + ", ".join("%s: %s" % (k, show(x, d + 1)) for k, x in v.f.items()) + "}"
+                if isinstance(v, ms.Enum):
+                    return "Enum(%s)" % (v.discr,)
+                if isinstance(v, ms.Opaque):
+                    return "Opaque(%s)" % v.what
+                return repr(v)
+            sys.stderr.write("ARGS_EQ %s || %s\n" % (show(a[0]), show(a[1])))
+        # the expected value must be a constant of the step (client_id apart): a leaf taken from the request's own
+        # parameters makes `equal` say nothing about that parameter
+        def leaves(v, depth=0):
+            if depth > 6:
+                return
+            if isinstance(v, ms.Ref):
+                yield from leaves(ex.load(path, v), depth + 1)
+            elif isinstance(v, ms.Struct):
+                for x in v.f.values():
+                    yield from leaves(x, depth + 1)
+            elif isinstance(v, ms.Enum):
+                for pl in v.payloads.values():
+                    yield from leaves(pl, depth + 1)
+            else:
+                yield v
+        for side in (a[0], a[1]):
+            for lf in leaves(side):
+                dep = (isinstance(lf, ms.Opaque) and re.match(r"arg\d+$", str(lf.what))) or \
+                      (z3.is_expr(lf) and not z3.eq(lf, z3.Int("arg0")) and "arg" in str(lf))
+                if dep:
+                    events(path).append(("expected_depends", str(lf.what) if isinstance(lf, ms.Opaque) else str(lf)))
         return z3.Bool("args_equal")
 
     def m_str_eq(ex, path, a):
@@ -354,6 +387,9 @@ def run_step(step, mir, ctx, solver, timeout_s, t0):
                 ask(pc, z3.BoolVal(True), "P:c19.step_checks_its_own_place_in_the_sequence")
             if who is not None:
                 ask(pc, who != z3.Int("arg0"), "P:c19.client_id_of_the_request_is_checked")
+        if any(e[0] == "expected_depends" for e in evs):
+            ask(pc, z3.BoolVal(True), "P:c19.expected_value_is_a_constant_of_the_step")
+        evs = [e for e in evs if e[0] != "expected_depends"]
         conts = [e for e in evs if e[0] == "continues"]
         replies = [e[0] for e in evs if e[0] not in ("cid", "continues")]
         # the function's own result is the literal Ok(()) (otherwise: whatever the last call returned)
@@ -490,13 +526,19 @@ def run_instance(name, repo, timeout_s):
         labels = ["P:c19.client_id_checked_first_and_once", "P:c19.step_checks_its_own_place_in_the_sequence",
                   "P:c19.client_id_of_the_request_is_checked", "P:c19.at_most_one_reply",
                   "P:c19.deviating_request_never_gets_the_success_reply", "P:c19.canonical_request_succeeds",
-                  "P:c19.unanswered_step_closes_the_connection"]
+                  "P:c19.unanswered_step_closes_the_connection", "P:c19.expected_value_is_a_constant_of_the_step"]
     res = {"verdict": "pass", "reason": "", "checks_failed": [], "playback": [], "failed_labels": [],
            "checks_total": queries, "verification_time_s": round(time.time() - t0, 2), "oracle_ok": [], "covers": [],
            "covers_unsat": []}
     if failed:
         label, wit = failed
-        res.update(verdict="violation", failed_labels=[label], witness=wit, playback=[[encode_witness(name, wit, label)]])
+        if "expected_value_is_a_constant" in label:
+            step = name[len("c19_step_"):]
+            mo = (2 if step == "test10" else 0, 2 if step == "test11" else 0)
+            res.update(verdict="violation", failed_labels=[label], witness=wit,
+                       playback=[[[0, 1, mo[0], mo[1], 0, 1, 1, 1, 0, pick]] for pick in range(6)])
+        else:
+            res.update(verdict="violation", failed_labels=[label], witness=wit, playback=[[encode_witness(name, wit, label)]])
     else:
         res["oracle_ok"] = labels
         res["covers"] = [{"desc": "a path that admits / answers with the success reply", "status": "SATISFIED" if seen["success"] else "UNSATISFIABLE"},
